@@ -155,6 +155,9 @@ ibz_cornacchia_special_prime(ibz_t *x,
 
     // test coprimality (should always be ok in our cases)
     ibz_gcd(&r2, p, n);
+    if (!ibz_is_one(&r2) && (test != 0)) {
+        res = 0;
+    }
     if (ibz_is_one(&r2) && (test != 0)) {
 
         // get sqrt of -n mod p
